@@ -68,6 +68,7 @@ func (f *Frame) call(v ssa.Value, c *ssa.CallCommon, st *state) {
 	}
 	contract = u.W.funcContract(callee)
 	what = funcDisplayName(callee)
+	f.atCallAsserts(v.(ssa.Instruction), what, st)
 	f.applyCall(v, c, callee, contract, what, args, st)
 }
 
@@ -1262,4 +1263,42 @@ func topConjuncts(t string) []string {
 		out = append(out, body[start:])
 	}
 	return out
+}
+
+
+// atCallAsserts: "atcall <callee> <ordinal> <expr>" clauses of the function under contract
+// are in-body assertions evaluated just before the N-th call of that callee.
+func (f *Frame) atCallAsserts(in ssa.Instruction, what string, st *state) {
+	if !f.top || f.contract == nil {
+		return
+	}
+	u := f.u
+	for _, cl := range f.contract.ClausesOf("atcall") {
+		fs := strings.Fields(cl.Text)
+		if len(fs) < 3 || !strings.HasSuffix(what, fs[0]) {
+			continue
+		}
+		if f.callCount == nil {
+			f.callCount = map[string]int{}
+		}
+		key := cl.Text
+		f.callCount[key]++
+		var ord int
+		fmt.Sscanf(fs[1], "%d", &ord)
+		if f.callCount[key] != ord {
+			continue
+		}
+		if !cl.ForProp(f.contract, u.Prop) {
+			continue
+		}
+		expr := strings.TrimSpace(strings.TrimPrefix(strings.TrimSpace(strings.TrimPrefix(cl.Text, fs[0])), fs[1]))
+		env := f.specEnvAt(in.Block(), st.heap)
+		t, err := env.evalBool(expr)
+		if err != nil {
+			u.W.fail("%s:%d: atcall: %v", cl.File, cl.Line, err)
+			continue
+		}
+		u.oblige("assert", f.fname, st.cur, t, cl.File+":"+fmt.Sprint(cl.Line), expr)
+		u.assume(st.cur, t)
+	}
 }
